@@ -130,35 +130,48 @@ def api_roundtrip(shape, vals, grid=False):
     Ts = [vals.get("T0", 50.0)]
     if grid:
         Ts += list(np.linspace(-60, 140, 41))
-    for cls in (DailyModel, BillingModel):
-        base = cls()
-        doc = dict(submodels={"fw-su_sh_wi": sub.model_dump()}, settings=base.settings.model_dump(),
-                   info=dict(error={}, baseline_timezone="US/Pacific",
-                             disqualification=[dict(qualified_name="eemeter.x", description="d", data={"a": 1.0})],
-                             warnings=[dict(qualified_name="eemeter.w", description="w", data={})]))
-        if cls is BillingModel:
-            doc["settings"]["developer_mode"] = True
+    profiles = [("DailyModel()", DailyModel, {}), ("DailyModel(model='legacy')", DailyModel, dict(model="legacy")),
+                ("DailyModel(developer settings)", DailyModel, dict(settings={"developer_mode": True, "silent_developer_mode": True, "cvrmse_threshold": 2})),
+                ("DailyModel(custom season/weekday maps)", DailyModel, dict(settings={"season": {"january": "summer", "july": "winter"}, "weekday_weekend": {"friday": "weekend"}})),
+                ("BillingModel()", BillingModel, {})]
+    for pname, cls, kw in profiles:
+        # the document a model of this profile writes: to_dict() of an instance carrying these parameters
+        base = cls(**kw)
+        from opendsm.eemeter.models.daily.parameters import DailyModelParameters
+        base.params = DailyModelParameters(submodels={"fw-su_sh_wi": sub.model_dump()}, settings=base.settings.model_dump(),
+                                           info=dict(error={}, baseline_timezone="US/Pacific",
+                                                     disqualification=[dict(qualified_name="eemeter.x", description="d", data={"a": 1.0})],
+                                                     warnings=[dict(qualified_name="eemeter.w", description="w", data={})]))
+        doc = base.to_dict()
+        try:
+            cls.from_dict(json.loads(json.dumps(doc)))
+        except Exception as ex:
+            problems.append(f"{pname}: document written by to_dict() is rejected by from_dict(): {type(ex).__name__}: {str(ex)[:120]}")
+            continue
         m1 = cls.from_dict(json.loads(json.dumps(doc)))
         js1 = m1.to_json()
         m2 = cls.from_json(js1)
         js2 = m2.to_json()
         if js1 != js2:
-            problems.append(f"{cls.__name__}: re-serialisation differs")
+            problems.append(f"{pname}: re-serialisation differs")
         if [w.qualified_name for w in m2.disqualification] != ["eemeter.x"] or [w.qualified_name for w in m2.warnings] != ["eemeter.w"]:
-            problems.append(f"{cls.__name__}: warnings/disqualification lost")
+            problems.append(f"{pname}: warnings/disqualification lost")
         if str(m2.baseline_timezone) != "US/Pacific":
-            problems.append(f"{cls.__name__}: timezone lost")
+            problems.append(f"{pname}: timezone lost")
         idx = pd.date_range("2021-01-01", periods=len(Ts), freq="D", tz="US/Pacific")
         df = pd.DataFrame({"temperature": np.array(Ts, dtype=float)}, index=idx)
+        p0 = base._predict(df.copy())  # the original (never stored) model object
         p1 = m1._predict(df.copy())
         p2 = m2._predict(df.copy())
+        if p0["predicted"].to_numpy().tobytes() != p1["predicted"].to_numpy().tobytes() or list(p0["season"]) != list(p1["season"]):
+            problems.append(f"{pname}: reloaded model does not predict bit-identically to the original")
         for col in ("predicted", "predicted_unc", "heating_load", "cooling_load"):
             a, b = p1[col].to_numpy(), p2[col].to_numpy()
             if not (a.tobytes() == b.tobytes()):
-                problems.append(f"{cls.__name__}: {col} not bit-identical after round trip")
+                problems.append(f"{pname}: {col} not bit-identical after round trip")
         k = R.real_predict_submodel(shape, vals, Ts)
         if not np.array_equal(p1["predicted"].to_numpy(), np.array(k["predicted"])):
-            problems.append(f"{cls.__name__}: API prediction differs from kernel path")
+            problems.append(f"{pname}: API prediction differs from kernel path")
     return problems
 
 
